@@ -342,7 +342,24 @@ pub fn generate(seed: u64, tier: &str, sink: &mut Sink) {
         let o = base_oracle(&case, &out, "declared-chunk-size");
         emit(sink, vec!["kind=declared-size".into(), "framing=chunked".into()], &case, &out, o);
     }
-    for decl in ["2147483648", "9223372036854775807", "18446744073709551615"] {
+    // Content-Length values around every width a hostile peer can pick: 2^31, 2^63, 2^64 - 1 (the largest value
+    // that fits), 2^64 and other 20-digit values that do not, 21 digits and more (seed C05-seed8: a value of
+    // exactly 20 digits above u64::MAX), 2^128, a thousand digits
+    let thousand = "9".repeat(1000);
+    for decl in [
+        "2147483648",
+        "9223372036854775807",
+        "9223372036854775808",
+        "18446744073709551615",
+        "18446744073709551616",
+        "18446744073709551617",
+        "20000000000000000000",
+        "99999999999999999999",
+        "100000000000000000000",
+        "000000000000000000003",
+        "340282366920938463463374607431768211456",
+        thousand.as_str(),
+    ] {
         let w = format!("HTTP/1.1 200 OK\r\nContent-Length: {}\r\n\r\nabc", decl).into_bytes();
         for reads in [Reads::Drain(8192), Reads::Sizes(vec![1 << 16, 1 << 16, 1 << 16])] {
             let case = RespCase { method: "GET".into(), max_headers: 100, segs: vec![Seg::Data(w.clone())], reads };
